@@ -277,21 +277,21 @@ func report(verif string, prop *Property, res RunResult, known KnownFile, tier s
 		}
 	}
 	cov := map[string]any{
-		"explanation":         prop.Explanation,
-		"obligations":         total,
-		"discharged":          discharged,
-		"evaluations":         total,
-		"distinct_nontrivial": countDistinct(res.Obs),
-		"rule":                "one obligation per call site / access / path / field / table row the rule instances had to decide on the current tree; distinct = distinct obligation keys (rule + construct)",
-		"samples":             samples,
-		"rules":               res.Rules,
+		"explanation":                prop.Explanation,
+		"obligations":                total,
+		"discharged":                 discharged,
+		"evaluations":                total,
+		"distinct_nontrivial":        countDistinct(res.Obs),
+		"rule":                       "one obligation per call site / access / path / field / table row the rule instances had to decide on the current tree; distinct = distinct obligation keys (rule + construct)",
+		"samples":                    samples,
+		"rules":                      res.Rules,
 		"functions_with_obligations": len(funcs),
-		"known_findings":      len(res.Known),
-		"notes":               notes,
-		"exhaustive":          true,
-		"checker_cmd":         "bin/servcheck -property " + prop.ID + " -tier " + tier,
-		"trusted_base":        prop.Assumptions,
-		"broken":              res.Broken,
+		"known_findings":             len(res.Known),
+		"notes":                      notes,
+		"exhaustive":                 true,
+		"checker_cmd":                "bin/servcheck -property " + prop.ID + " -tier " + tier,
+		"trusted_base":               prop.Assumptions,
+		"broken":                     res.Broken,
 	}
 	for k, v := range res.Info {
 		cov[k] = v
